@@ -4,20 +4,21 @@
 set -euo pipefail
 W=$(realpath -m ${1:?workdir})
 mkdir -p "$W"
-V=/verif/harness
-python3 - "$W" <<'PY'
+V=$(dirname "$(dirname "$(realpath "$0")")")
+REPO=${VERIF_REPO:-/repo}
+python3 - "$W" "$V" "$REPO" <<'PY'
 import json,sys,os,glob
-W=sys.argv[1]
+W,V,R=sys.argv[1:4]
 rep={}
-for f in glob.glob('/verif/harness/sim/*.go'):
-    rep['/repo/internal/verifsim/'+os.path.basename(f)]=f
-rep['/repo/cmd/verif-pkosim/main.go']='/verif/harness/cmd/main.go'
-for f in glob.glob('/verif/harness/inpkg/*/*.go'):
+for f in glob.glob(V+'/harness/sim/*.go'):
+    rep[R+'/internal/verifsim/'+os.path.basename(f)]=f
+rep[R+'/cmd/verif-pkosim/main.go']=V+'/harness/cmd/main.go'
+for f in glob.glob(V+'/harness/inpkg/*/*.go'):
     # inpkg/<pkg path with __ as separator>/<file>  → /repo/<pkg path>/<file>
     d=os.path.basename(os.path.dirname(f)).replace('__','/')
-    rep['/repo/'+d+'/'+os.path.basename(f)]=f
+    rep[R+'/'+d+'/'+os.path.basename(f)]=f
 json.dump({'Replace':rep},open(W+'/overlay.json','w'),indent=1)
 PY
-cd /repo
+cd "$REPO"
 export GOPROXY=off GOFLAGS=
 go build -tags verif -overlay "$W/overlay.json" -o "$W/pkosim" ./cmd/verif-pkosim
